@@ -7,7 +7,7 @@
    instance the correspondence runs - and (Q, *, 1) - probabilities - are both instances, and
    [c07_spec_slp_hom] transports the declarative sum along any homomorphism between them (the
    role exp plays between the two on the reals). *)
-From Coq Require Import List ZArith Bool Arith QArith.
+From Coq Require Import List ZArith Bool Arith QArith Lia.
 From PV Require Import C07.Model C07.Spec C07.Proofs.
 Import ListNotations.
 Local Close Scope Q_scope.
@@ -306,5 +306,5 @@ Example c07_packed_nonvacuous :
 Proof.
   cbn zeta. split; [reflexivity|]. split; [reflexivity|].
   intros [|[|[|n]]] H; try (split; [repeat constructor|reflexivity]).
-  exfalso. repeat apply Nat.succ_lt_mono in H. inversion H.
+  exfalso. lia.
 Qed.
